@@ -120,5 +120,16 @@ GROUP = {
           rewrites=[("R24-hashmap-collect", "config_mapping.iter().collect()", "hashmap_entries(config_mapping)", 1),
                     ("R24-sort-by-field", "fields.sort_unstable_by_key(|(k, _)| **k);",
                      SORT_PROOF("sort_unstable_by_fieldkey(&mut fields)", "refs_view(fields@)", "config_mapping@", "fieldkey_le()"), "opt")]),
+        # ---- `okane accounts`: the order in which the known accounts are listed
+        U("ReportContext::all_accounts", "core/src/report/context.rs", [r"impl<'ctx> ReportContext<'ctx>", r"pub\(super\) fn all_accounts\b"], fn="all_accounts", wrap=("impl ReportContextStub {", "}"),
+          rewrites=[("R0", "ret_"),
+                    ("R24-hashmap-collect", "self.all_accounts_unsorted().collect()", "collect_all_accounts_unsorted(self)", 1),
+                    ("R24-sort-by-name", "re:\\b(\\w+)\\.sort_unstable_by_key\\(\\|(\\w+)\\| \\2\\.as_str\\(\\)\\);",
+                     "let ghost pre__ = \\1@.map_values(|a: Account| (a, ())); sort_accounts_by_name(&mut \\1); proof { det::lemma_sorted_perm_canonical(pre__, \\1@.map_values(|a: Account| (a, ())), canonical_accounts_of(self), account_le()); }", "opt")],
+          contract="""
+        ensures
+            // C13: the accounts are listed in an order that depends on the set of known accounts alone
+            det::is_canonical(ret_@.map_values(|a: Account| (a, ())), canonical_accounts_of(self), account_le()),   // @ReportContext.all_accounts.order_is_function_of_the_known_accounts
+"""),
     ],
 }
